@@ -1921,4 +1921,191 @@ theorem Inv_authorities (as : List RecIn) : ∀ (p p' : OutPacket) (c c' : Nat) 
     · simp at h
     · simp at h
 
+/-- expected records of a packet, in wire order -/
+def ghostRecs (g : Ghost) : List Ref.Record :=
+  g.an.map (fun a => expRec a.1 a.2) ++ (g.au.map (expRec · 0) ++ g.ad.map (expRec · 0))
+
+theorem header_parse (p p' : OutPacket) (g : Ghost) (id flags qc anc auc adc : Nat)
+    (h : p.writeHeader id flags qc anc auc adc = .ok p')
+    (hi : Inv p g.qs.length (g.qs.map expQ) (ghostRecs g)) (hs : p.data.size ≤ MAX_MSG_ABSOLUTE)
+    (hq : qc % 65536 = g.qs.length % 65536) (ha : anc = g.an.length) (hu : auc = g.au.length)
+    (hd : adc = g.ad.length) :
+    Ref.parse p'.data = some
+      { id := id % 65536, flags := flags % 65536, questions := g.qs.map expQ,
+        answers := g.an.map (fun a => expRec a.1 a.2), authorities := g.au.map (expRec · 0),
+        additionals := g.ad.map (expRec · 0) } := by
+  obtain ⟨body, o1, h1, h2, h3⟩ := hi
+  simp only [MAX_MSG_ABSOLUTE] at hs
+  obtain ⟨H', hH', hd'⟩ := writeHeader_prefix p p' hdr0 body.toArray _ _ _ _ _ _ h1 hdr0_size h
+  obtain ⟨hsz, hh⟩ := writeHeader_ok _ _ _ _ _ _ _ _ h
+  obtain ⟨_, n2⟩ := h3 H' hH'
+  obtain ⟨m1, m2⟩ := n2 #[]
+  simp only [Array.append_empty] at m1 m2
+  rw [← hd'] at m1 m2
+  have hlen : (ghostRecs g).length = g.an.length + (g.au.length + g.ad.length) := by
+    simp [ghostRecs]
+  rw [hlen] at m2 h2
+  obtain ⟨o2, r1, r2⟩ := Ref.readMany_split _ _ _ _ _ _ m2
+  obtain ⟨o3, r3, r4⟩ := Ref.readMany_split _ _ _ _ _ _ r2
+  have t1 : (ghostRecs g).take g.an.length = g.an.map (fun a => expRec a.1 a.2) := by
+    simp [ghostRecs]
+  have t2 : (ghostRecs g).drop g.an.length = g.au.map (expRec · 0) ++ g.ad.map (expRec · 0) := by
+    have : g.an.length = (g.an.map (fun a => expRec a.1 a.2)).length := by simp
+    rw [ghostRecs, this, List.drop_left]
+  rw [t1] at r1
+  rw [t2] at r3 r4
+  have t3 : (g.au.map (expRec · 0) ++ g.ad.map (expRec · 0)).take g.au.length = g.au.map (expRec · 0) := by
+    simp
+  have t4 : (g.au.map (expRec · 0) ++ g.ad.map (expRec · 0)).drop g.au.length = g.ad.map (expRec · 0) := by
+    have : g.au.length = (g.au.map (expRec · 0)).length := by simp
+    rw [this, List.drop_left]
+  rw [t3] at r3
+  rw [t4] at r4
+  have c1 : qc % 65536 = g.qs.length := by rw [hq]; apply Nat.mod_eq_of_lt; omega
+  have c2 : anc % 65536 = g.an.length := by rw [ha]; apply Nat.mod_eq_of_lt; omega
+  have c3 : auc % 65536 = g.au.length := by rw [hu]; apply Nat.mod_eq_of_lt; omega
+  have c4 : adc % 65536 = g.ad.length := by rw [hd]; apply Nat.mod_eq_of_lt; omega
+  have hend : 12 + body.length = p'.data.size := by rw [hsz, h1]; simp
+  unfold Ref.parse
+  rw [hh.id, hh.flags, hh.qc, hh.anc, hh.auc, hh.adc, c1, c2, c3, c4]
+  simp only [m1, r1, r3, r4, hend, if_true]
+
+/-- what an RFC 1035 reader must return for a finished packet that carries `g` -/
+def expMsg (o : OutMsg) (id : Nat) (tc : Bool) (g : Ghost) : Ref.Msg :=
+  { id := id % 65536, flags := (if tc then o.flags ||| FLAGS_TC else o.flags) % 65536,
+    questions := g.qs.map expQ, answers := g.an.map (fun a => expRec a.1 a.2),
+    authorities := g.au.map (expRec · 0), additionals := g.ad.map (expRec · 0) }
+
+/-- the reference reader accepts the packet and finds exactly what the packet carries -/
+def ParseOK (o : OutMsg) (id : Nat) (tc : Bool) (p : Packet) : Prop :=
+  Ref.parse p.data = some (expMsg o id tc p.ghost)
+
+theorem finish_parse (o : OutMsg) (id : Nat) (st : LoopSt) (ps : List Packet) (h : finish o id st = .ok ps)
+    (s1 : StInv MAX_MSG_ABSOLUTE st)
+    (s2 : Inv st.packet st.ghost.qs.length (st.ghost.qs.map expQ) (ghostRecs st.ghost)) :
+    ∃ last, ps = st.done ++ [last] ∧ ParseOK o id false last := by
+  simp only [finish] at h
+  split at h
+  · rename_i p hp
+    simp only [Res.ok.injEq] at h
+    refine ⟨_, h.symm, ?_⟩
+    have := header_parse _ _ st.ghost _ _ _ _ _ _ hp s2 s1.hi s1.qc s1.anc s1.auc s1.adc
+    simpa [ParseOK, expMsg] using this
+  · simp at h
+  · simp at h
+
+theorem writeAdditionals_parse (o : OutMsg) (id : Nat) (rs : List RecIn) : ∀ (st : LoopSt) (ps : List Packet),
+    writeAdditionals o id st rs = .ok ps → StInv MAX_MSG_ABSOLUTE st →
+    Inv st.packet st.ghost.qs.length (st.ghost.qs.map expQ) (ghostRecs st.ghost) →
+    (∀ r ∈ rs, RecWF r 0) → (∀ p ∈ st.done, ParseOK o id true p) →
+    ∃ init last, ps = init ++ [last] ∧ (∀ p ∈ init, ParseOK o id true p) ∧ ParseOK o id false last := by
+  induction rs with
+  | nil =>
+    intro st ps h s1 s2 _ hd
+    simp only [writeAdditionals] at h
+    obtain ⟨last, e, hl⟩ := finish_parse _ _ _ _ h s1 s2
+    exact ⟨st.done, last, e, hd, hl⟩
+  | cons r rest ih =>
+    intro st ps h s1 s2 hw hd
+    have hr := hw r List.mem_cons_self
+    have ht := fun x hx => hw x (List.mem_cons_of_mem _ hx)
+    simp only [writeAdditionals] at h
+    split at h
+    · simp at h
+    · simp at h
+    · rename_i p' h1
+      have g1 := (writeRecord_ok _ _ _ _ _ h1).1 rfl
+      have i1 := Inv_record _ _ _ _ _ r 0 true s2 h1 hr s1.hi
+      refine ih _ ps h ⟨?_, ?_, s1.qc, s1.anc, s1.auc, ?_⟩ ?_ ht hd
+      · have := s1.lo; simp only []; omega
+      · simp only []; omega
+      · simp [s1.adc]
+      · simp only [if_true] at i1
+        simpa [ghostRecs] using i1
+    · rename_i p' h1
+      have g1 := (writeRecord_ok _ _ _ _ _ h1).2 rfl
+      have i1 := Inv_record _ _ _ _ _ r 0 false s2 h1 hr s1.hi
+      simp only [Bool.false_eq_true, if_false] at i1
+      have s1' : StInv MAX_MSG_ABSOLUTE { st with packet := p' } :=
+        ⟨by have := s1.lo; simp only []; omega, by have := s1.hi; simp only []; omega,
+          s1.qc, s1.anc, s1.auc, s1.adc⟩
+      split at h
+      · obtain ⟨last, e, hl⟩ := finish_parse o id { st with packet := p' } ps h s1' i1
+        exact ⟨st.done, last, e, hd, hl⟩
+      · split at h
+        · simp at h
+        · simp at h
+        · rename_i full hf
+          have pf := header_parse _ _ st.ghost _ _ _ _ _ _ hf i1 s1'.hi s1.qc s1.anc s1.auc s1.adc
+          split at h
+          · simp at h
+          · simp at h
+          · rename_i p2 b h2
+            have g2 := writeRecord_ok _ _ _ _ _ h2
+            have i2 := Inv_record _ _ 0 [] [] r 0 b Inv_new h2 hr (by simp [MAX_MSG_ABSOLUTE])
+            refine ih _ ps h ⟨?_, ?_, ?_, rfl, rfl, ?_⟩ ?_ ht ?_
+            · simp only []
+              cases b
+              · have := g2.2 rfl; simp at this; omega
+              · have := g2.1 rfl; simp at this; omega
+            · simp only []
+              cases b
+              · have := g2.2 rfl; simp at this; simp [MAX_MSG_ABSOLUTE]; omega
+              · exact (g2.1 rfl).2
+            · simp
+            · cases b <;> simp
+            · cases b <;> simpa [ghostRecs] using i2
+            · intro p hp
+              simp only [List.mem_append, List.mem_singleton] at hp
+              rcases hp with hp | rfl
+              · exact hd p hp
+              · simpa [ParseOK, expMsg] using pf
+
+/-- The domain of the round-trip theorem: names of at most 255 octets, 16-bit types,
+    15-bit classes, 32-bit TTLs (for `now ≠ 0`: the remaining TTL), RDATA of the kind that
+    belongs to the record type.  (Labels of at most 63 bytes are implied by the encoder
+    not panicking.) -/
+def MsgWF (o : OutMsg) : Prop :=
+  (∀ q ∈ o.questions, QWF q) ∧ (∀ a ∈ o.answers, RecWF a.1 a.2) ∧
+  (∀ r ∈ o.authorities, RecWF r 0) ∧ (∀ r ∈ o.additionals, RecWF r 0)
+
+theorem toPackets_parse (o : OutMsg) (ps : List Packet) (h : toPackets o = .ok ps) (hw : MsgWF o)
+    (hq : questionsSize o ≤ MAX_MSG_ABSOLUTE) :
+    ∃ init last, ps = init ++ [last] ∧ (∀ p ∈ init, ParseOK o (wireId o) true p) ∧
+      ParseOK o (wireId o) false last := by
+  simp only [toPackets] at h
+  split at h
+  · simp at h
+  · simp at h
+  · rename_i p0 h0
+    have hq0 : p0.data.size ≤ MAX_MSG_ABSOLUTE := by simpa [questionsSize, h0] using hq
+    have s0 := writeQuestions_ok _ _ _ h0
+    have i0 := Inv_questions o.questions _ _ 0 [] Inv_new h0 hw.1 hq0
+    split at h
+    · simp at h
+    · simp at h
+    · rename_i p1 anc an h1
+      obtain ⟨a1, _, a3, _⟩ := writeAnswers_ok _ _ _ _ _ _ _ h1
+      obtain ⟨sa, ea, ia, za⟩ := Inv_answers o.answers _ _ _ _ _ _ _ _ _ i0 h1 hw.2.1 hq0
+      split at h
+      · simp at h
+      · simp at h
+      · rename_i p2 auc au h2
+        obtain ⟨b1, _, b3, _⟩ := writeAuthorities_ok _ _ _ _ _ _ _ h2
+        obtain ⟨sb, eb, ib, zb⟩ := Inv_authorities o.authorities _ _ _ _ _ _ _ _ _ ia h2 hw.2.2.1 za
+        simp only [List.nil_append] at ea eb
+        subst ea eb
+        refine writeAdditionals_parse o _ o.additionals _ ps h ⟨?_, zb, ?_, ?_, ?_, rfl⟩ ?_ hw.2.2.2 (by simp)
+        · simp only []; simp at s0; omega
+        · simp
+        · simp only []; simp at a3; omega
+        · simp only []; simp at b3; omega
+        · simpa [ghostRecs] using ib
+
+instance (q : QIn) : Decidable (QWF q) := by unfold QWF; infer_instance
+instance (ty : Nat) (rd : Wire.RData) : Decidable (RDataWF ty rd) := by
+  cases rd <;> simp only [RDataWF] <;> infer_instance
+instance (r : RecIn) (now : Nat) : Decidable (RecWF r now) := by unfold RecWF; infer_instance
+instance (o : OutMsg) : Decidable (MsgWF o) := by unfold MsgWF; infer_instance
+
 end Mdns.Enc
